@@ -33,6 +33,34 @@ def tie_free_points(rng, n, m, metric):
     return None, None
 
 
+def chain_layout(rng):
+    """Two classes that are NOT blobs: a sparse chain of long hops (class 0) along a ray and a dense chain of short hops (class 1)
+    that starts beside its base and curls round to beyond its far end; queries beyond the far end of the sparse chain. Squared
+    distances along such chains violate the triangle inequality badly (a long hop costs more than two short ones), which is
+    what separates order-only algorithms from ones that reason with distance bounds. Random similarity transform + jitter."""
+    import math
+    na, nb = rng.randint(2, 3), rng.randint(5, 7)
+    hop_a = rng.uniform(1.8, 2.4)
+    A = [[hop_a * j, 0.0] for j in range(na)]
+    end = A[-1][0]
+    # dense chain: from (0, -1.5) down and round to about (end + 4, -4.4)
+    B = []
+    for j in range(nb):
+        t = j / (nb - 1)
+        B.append([(end + 4.1) * t, -1.5 - 3.1 * math.sin(math.pi * 0.5 * (0.55 + 0.9 * t)) * (0.35 + 0.65 * math.sin(math.pi * min(1.0, t + 0.25)))])
+    Q = [[end + rng.uniform(3.0, 4.2), rng.uniform(-0.2, 0.6)] for _ in range(rng.randint(2, 4))] + [[rng.uniform(0.5, end + 1), rng.uniform(0.5, 1.5)]]
+    pts = A + B + Q
+    th, sc = rng.uniform(0, 2 * math.pi), rng.choice([0.5, 1.0, 1.0, 3.0])
+    tx, ty = rng.uniform(-5, 5), rng.uniform(-5, 5)
+    out = []
+    for (x, y) in pts:
+        x, y = x + rng.uniform(-0.03, 0.03), y + rng.uniform(-0.03, 0.03)
+        out.append([sc * (x * math.cos(th) - y * math.sin(th)) + tx, sc * (x * math.sin(th) + y * math.cos(th)) + ty])
+    labels = [0] * na + [1] * nb
+    order = list(range(na + nb)); rng.shuffle(order)
+    return [out[j] for j in order] + out[na + nb:], [labels[j] for j in order]
+
+
 def rank_matrix(D, n, N):
     """dense ranks of the entries (training block and train-query block), for comparing order structure"""
     vals = sorted(set(D[a][b] for a in range(n) for b in range(N)))
@@ -110,6 +138,7 @@ def main(tier, seed):
     NR = 80 if tier == "quick" else 6000
     for i in range(NR):
         n, m = rng.randint(3, 9), rng.randint(1, 4)
+        chain_labels = None
         arr = None
         if i % 4 == 3:
             # narrow integer feature arrays (raw bytes / small counts): legal input, the metrics must not wrap around
@@ -128,11 +157,19 @@ def main(tier, seed):
             arr = np.array(Xi, dtype=dt)
             exact_sq = [[float(sum((a - b) ** 2 for a, b in zip(Xi[p], Xi[q]))) for q in range(n + m)] for p in range(n + m)]
             stats["narrow_int_groups"] = stats.get("narrow_int_groups", 0) + 1
+        elif i % 5 == 3:
+            X, chain_labels = chain_layout(rng)
+            n, m = len(chain_labels), len(X) - len(chain_labels)
+            D0 = metric_matrix("squared_euclidean", X)
+            allv = [D0[a][b] for a in range(n) for b in range(a + 1, n)] + [D0[a][q] for a in range(n) for q in range(n, n + m)]
+            if len(set(allv)) != len(allv) or min(allv) <= 0:
+                continue
+            stats["chain_layouts"] = stats.get("chain_layouts", 0) + 1
         else:
             X, D0 = tie_free_points(rng, n, m, "squared_euclidean")
         if X is None:
             continue
-        labels = gen_labels(rng, n)
+        labels = gen_labels(rng, n) if chain_labels is None else chain_labels
         runs = {}
         ranks = {}
         for metric in FAMILY:
